@@ -28,6 +28,9 @@ func main() {
 		vlib.Group{Name: "extract-dst", Gen: genExtractDst},
 		vlib.Group{Name: "reuse", Gen: genReuse},
 		vlib.Group{Name: "failed-refactorize", Gen: genFailedRefactorize},
+		vlib.Group{Name: "live-objects", Gen: genLive},
+		vlib.Group{Name: "grow-update", Gen: genGrowUpdate},
+		vlib.Group{Name: "grow-receiver", Gen: genGrowRecv},
 		vlib.Group{Name: "update-contracts", Gen: genUpdateMisc},
 		vlib.Group{Name: "lu-histories", Gen: genLUHist},
 		// the Cholesky histories are by far the largest group: last, so that an internal
